@@ -71,7 +71,18 @@ pub(super) struct Station {
 
 impl Station {
     pub(super) async fn new() -> Result<(Station, SocketAddr), String> {
-        let listener = tokio::net::TcpListener::bind("127.0.0.1:0").await.map_err(|e| format!("station bind: {e}"))?;
+        // SO_REUSEADDR + patience: ports held only by TIME_WAIT entries of earlier explorations may be taken
+        let mut tries = 0;
+        let listener = loop {
+            tries += 1;
+            let sock = tokio::net::TcpSocket::new_v4().map_err(|e| e.to_string())?;
+            let _ = sock.set_reuseaddr(true);
+            match sock.bind("127.0.0.1:0".parse().unwrap()).and_then(|_| sock.listen(8)) {
+                Ok(l) => break l,
+                Err(e) if e.kind() == std::io::ErrorKind::AddrInUse && tries < 600 => tokio::time::sleep(Duration::from_millis(100)).await,
+                Err(e) => return Err(format!("station bind: {e}")),
+            }
+        };
         let addr = listener.local_addr().map_err(|e| e.to_string())?;
         Ok((Station { listener, stream: None, buf: Vec::new() }, addr))
     }
